@@ -100,6 +100,8 @@ bool LP::moderate(int bits) const {
 }
 bool LP::well_formed(std::string *why) const {
 	for (auto &c : cols) if (cmp(c.lo, c.up) > 0) { if (why) *why = "lower>upper " + c.name; return false; }
+	// a lower bound of +infinity or an upper bound of -infinity (a damaged bounds section can say so: "inf <= x <= inf") leaves no value for the column
+	for (auto &c : cols) if ((!c.lo.fin() && c.lo.inf > 0) || (!c.up.fin() && c.up.inf < 0)) { if (why) *why = "infinite bound on the wrong side " + c.name; return false; }
 	for (auto &r : rows) if (r.sense == 'R' && r.range < 0) { if (why) *why = "range<0 " + r.name; return false; }
 	return true;
 }
